@@ -136,6 +136,53 @@ def r04_2(rep: Report, idx: Index) -> None:
         raise AnalysisError(f'R04.2: only {n} byte-string fields found')
 
 
+def _ancestor_walk_as_recursion(fn: ast.FunctionDef) -> ast.FunctionDef:
+    """`x = self; while T(x): BODY(x); [if not x.parent: break]; x = x.parent` - a method without further
+    parameters that does the same thing to itself and then to each ancestor - is the tail recursion
+    `if T(self): BODY(self); if self.parent: self.parent.<method>()`.  Returned as a new function in that form
+    (anything else is returned unchanged); the path rule below is stated on the recursive form."""
+    from ..normalise import clone, set_parents
+    body = [st for st in fn.body if not (isinstance(st, ast.Expr) and isinstance(st.value, ast.Constant))]
+    if len(fn.args.args) != 1 or len(body) != 2:
+        return fn
+    init, loop = body
+    if not (isinstance(init, ast.Assign) and len(init.targets) == 1 and isinstance(init.targets[0], ast.Name)
+            and norm(init.value) == 'self' and isinstance(loop, ast.While) and not loop.orelse and loop.body):
+        return fn
+    x = init.targets[0].id
+    last = loop.body[-1]
+    if not (isinstance(last, ast.Assign) and len(last.targets) == 1 and norm(last.targets[0]) == x
+            and norm(last.value) == f'{x}.parent'):
+        return fn
+    rest = loop.body[:-1]
+    guard = None
+    if rest and isinstance(rest[-1], ast.If) and not rest[-1].orelse and len(rest[-1].body) == 1 \
+            and isinstance(rest[-1].body[0], ast.Break) and norm(rest[-1].test) in (f'not {x}.parent', f'{x}.parent is None'):
+        guard = rest[-1]
+        rest = rest[:-1]
+    if any(isinstance(n, (ast.Break, ast.Continue, ast.Return)) for st in rest for n in ast.walk(st)):
+        return fn
+    if any(isinstance(n, ast.Name) and n.id == x and isinstance(n.ctx, ast.Store) for st in rest for n in ast.walk(st)):
+        return fn
+
+    class R(ast.NodeTransformer):
+        def visit_Name(self, node):
+            return ast.copy_location(ast.Name(id='self', ctx=node.ctx), node) if node.id == x else node
+    call = ast.Expr(value=ast.Call(func=ast.Attribute(value=ast.Attribute(value=ast.Name(id='self', ctx=ast.Load()), attr='parent',
+                                                                          ctx=ast.Load()), attr=fn.name, ctx=ast.Load()),
+                                   args=[], keywords=[]))
+    tail: ast.stmt = call
+    if guard is not None:
+        tail = ast.If(test=ast.Attribute(value=ast.Name(id='self', ctx=ast.Load()), attr='parent', ctx=ast.Load()),
+                      body=[call], orelse=[])
+    new_body = [R().visit(clone(st)) for st in rest] + [tail]
+    new = clone(fn)
+    new.body = [ast.If(test=R().visit(clone(loop.test)), body=new_body, orelse=[])]
+    ast.copy_location(new.body[0], loop)
+    ast.fix_missing_locations(new)
+    return set_parents(new)
+
+
 def _invalidate_paths(rep: Report, rid: str, inv: ast.FunctionDef) -> None:
     """every path of _invalidate either clears the cache and tells the parent, or implies there is nothing
     to clear / nobody to tell: a path that leaves the cache alone entails `self._encoded is None` (a cached
@@ -144,6 +191,7 @@ def _invalidate_paths(rep: Report, rid: str, inv: ast.FunctionDef) -> None:
     from ..pathcond import PathCond, entails as pc_entails, f_not, f_or, show as pc_show
     from ..flow import Disjunctive
     construct = f'{MP4}::Mp4Atom._invalidate'
+    inv = _ancestor_walk_as_recursion(inv)
 
     def upd(st, facts):
         facts = set(facts)
